@@ -26,6 +26,13 @@ void run(Src &src, Case &c)
     }
     GtOptions opt;
     opt.nlaBareKnown = true;
+    // extensions after the independent exploration (notes/C03.md): shapes the explorer's seven findings live in
+    opt.nlaSparseReads = true;
+    opt.nlaDependents = true;
+    opt.rateReaders = true;
+    opt.initByName = true;
+    opt.exoticReals = true;
+    opt.unaryPlus = true;
     GtModel gt = genGroundTruthModel(src, opt);
     Built b = buildApi(gt.spec);
     c.text = specToText(gt.spec) + "\n" + gt.describe();
@@ -75,6 +82,12 @@ void run(Src &src, Case &c)
     if (multiComp) c.cls("multi-component");
     if (hasNla) c.cls("nla-system");
     if (hasOde) c.cls("ode");
+    for (const char *k : {"nla-sparse-system", "nla-dependent", "nla-constant-system", "rate-reader", "rate-reader-scaled", "rate-reader-scaled-voi", "init-by-name-constant", "init-by-name-scaled", "init-by-name-chain", "init-by-name-declared-before", "init-by-name-state", "exotic-real-upper-e", "exotic-real"}) {
+        auto it = gt.counters.find(k);
+        if (it != gt.counters.end() && it->second > 0) {
+            c.cls(std::string("shape:") + k);
+        }
+    }
     for (const auto &o : gt.operatorsUsed) {
         c.cls("op:" + o);
     }
